@@ -34,7 +34,7 @@ def tla_set(xs, quote=True):
 def gen_cfg(locals_, doms, envlocals=(), rulevars=("lower",), envvars=ALL_VARS, targets=("T1",),
             codes=(550,), maxsrc=1, maxdst=1, maxdepth=0, maxmod=0, maxblocks=4, maxrules=1,
             maxkeys=1, maxentries=1, maxvals=1, maxdefects=0, defectodds=0, salts=(0,),
-            defaultlast=True, expected=False, tail=""):
+            defaultlast=True, expected=False, baremaps=True, tail=""):
     return """SPECIFICATION GSpec
 CONSTANTS
   Locals = %s
@@ -57,12 +57,14 @@ CONSTANTS
   DefectOdds = %d
   Salts = %s
   DefaultLast = %s
+  BareMaps = %s
   PrintExpected = %s
 CHECK_DEADLOCK FALSE
 %s""" % (tla_set(locals_), tla_set(doms), tla_set(envlocals), tla_set(rulevars), tla_set(envvars),
          tla_set(targets), tla_set(codes, False), maxsrc, maxdst, maxdepth, maxmod, maxblocks,
          maxrules, maxkeys, maxentries, maxvals, maxdefects, defectodds, tla_set(salts, False),
-         "TRUE" if defaultlast else "FALSE", "TRUE" if expected else "FALSE", tail)
+         "TRUE" if defaultlast else "FALSE", "TRUE" if baremaps else "FALSE",
+         "TRUE" if expected else "FALSE", tail)
 
 
 # bounds ---------------------------------------------------------------------
@@ -70,14 +72,30 @@ CHECK_DEADLOCK FALSE
 NO_UPPER_ACE = ["lower", "upper", "nfc", "nfd", "alabel"]
 MC_QUICK = dict(locals_=["l1"], doms=["d1"], envlocals=["l2"], maxsrc=1, maxdst=1, maxblocks=4,
                 envvars=NO_UPPER_ACE)
-# exhaustive, thorough: three bounds - two local parts and two spellings in the rules; two domains;
-# and the quick bound with one defect (missing default, undecided block, mixed level, reject+deliver_to)
-MC_THOROUGH = [
+# exhaustive: incomplete configurations - two destination-family blocks (destination + destination_in),
+# one defect: default block missing / block without decision / handling directive next to blocks /
+# reject + deliver_to
+MC_DEFECT = dict(locals_=["l1"], doms=["d1"], envlocals=["l2"], maxsrc=0, maxdst=2, maxblocks=3,
+                 maxdefects=1, envvars=NO_UPPER_ACE)
+# exhaustive: one rewrite map (full-address or local-part key, 1 value with or without domain) in every
+# scope, two domains routed by one destination-family block + default
+MC_REWRITE = dict(locals_=["l1"], doms=["d1", "d2"], maxsrc=0, maxdst=1, maxmod=1, maxblocks=2,
+                  envvars=NO_UPPER_ACE)
+# exhaustive: two nested rewrite scopes, each 1-to-1 or 1-to-2 (pipeline-wide, source block, destination block)
+# over three addresses, so that an address lost or duplicated between two scopes is visible in the target sets
+MC_NESTED_RW = dict(locals_=["l1", "l2", "l3"], doms=["d1"], codes=[], maxsrc=0, maxdst=0, maxmod=2, maxvals=2,
+                    maxblocks=0, baremaps=False, envvars=NO_UPPER_ACE)
+MC_QUICK_ALL = [MC_QUICK, MC_DEFECT, MC_REWRITE, MC_NESTED_RW]
+# exhaustive, thorough: additionally two local parts and two spellings in the rules; two domains; the
+# quick bound with one defect; incomplete configurations inside a reroute
+MC_THOROUGH = MC_QUICK_ALL + [
     dict(locals_=["l1", "l2"], doms=["d1"], rulevars=["lower", "nfd"], maxsrc=1, maxdst=1, maxblocks=4,
          envvars=NO_UPPER_ACE),
     dict(locals_=["l1"], doms=["d1", "d2"], envlocals=["l2"], maxsrc=1, maxdst=1, maxblocks=4,
          envvars=NO_UPPER_ACE),
     dict(MC_QUICK, maxdefects=1),
+    dict(locals_=["l1"], doms=["d1"], maxsrc=0, maxdst=2, maxblocks=3, maxdepth=1, maxdefects=1,
+         envvars=NO_UPPER_ACE),
 ]
 # as-is (deviations must be visible to the model)
 MC_ASIS = dict(locals_=["l1"], doms=["d1"], envlocals=["l2"], rulevars=["lower", "ALABEL"],
@@ -90,7 +108,7 @@ SIM = dict(locals_=["l1", "l2"], doms=["d1", "d2"], rulevars=ALL_VARS, targets=[
 
 TRACE_CFG = """SPECIFICATION TSpec
 CONSTANTS
-  Locals = {"l1", "l2"}
+  Locals = {"l1", "l2", "l3"}
   Doms = {"d1", "d2"}
   EnvLocals = {}
   RuleVars = {"lower"}
@@ -110,6 +128,7 @@ CONSTANTS
   DefectOdds = 0
   Salts = {0}
   DefaultLast = TRUE
+  BareMaps = TRUE
   PrintExpected = FALSE
   OpenDevs = %s
 CHECK_DEADLOCK FALSE
@@ -176,12 +195,45 @@ def run(ctx, replay):
         rows = [obj["row"]]
     else:
         # ---- (T) exhaustive enumeration inside the small bound + model theorems ----
+        n_sim, par = (6000, 10) if thorough else (260, 4)
+        bounds = MC_THOROUGH if thorough else MC_QUICK_ALL
+
+        def view(seed):
+            c = vlib.Ctx.__new__(vlib.Ctx)       # a view of ctx with its own seed
+            c.__dict__.update(ctx.__dict__)
+            c.seed = seed
+            return c
+
+        def mc(k):
+            return view(ctx.seed).tlc("Routing", None, name="mc%d" % k, workers=4 if thorough else 3,
+                                      timeout=2400 if thorough else 300,
+                                      cfg_text=gen_cfg(tail="INVARIANT TheoremsHold\n", **bounds[k]))
+
+        def asis(dev):
+            return view(ctx.seed).tlc("Routing", None, name="asis-" + dev, workers=2, timeout=300,
+                                      cfg_text=gen_cfg(tail="INVARIANT %sInvisible\n" % dev, **MC_ASIS))
+
+        def sim(k):
+            return view(ctx.seed * 1000 + k).tlc(
+                "Routing", None, name="sim%d" % k, workers=1, timeout=1500,
+                simulate=(n_sim + par - 1) // par, depth=400,
+                cfg_text=gen_cfg(tail="INVARIANT TheoremsHold\n",
+                                 **dict(SIM, envvars=ALL_VARS if k % 2 == 0 else NO_UPPER_ACE)))
+        with ThreadPoolExecutor(len(bounds) + len(open_devs) + par) as ex:
+            f_mc = [ex.submit(mc, k) for k in range(len(bounds))]
+            f_as = [(d, ex.submit(asis, d)) for d in open_devs]
+            f_sim = [ex.submit(sim, k) for k in range(par)]
+            r_mc = [f.result() for f in f_mc]
+            r_as = [(d, f.result()) for d, f in f_as]
+            sims = [f.result() for f in f_sim]
+
+        # ---- (T) exhaustive enumeration inside the small bounds + model theorems ----
         ex_rows = []
         ctx.cov["states"] = ctx.cov["transitions"] = ctx.cov["model_depth"] = 0
-        for k, mc in enumerate(MC_THOROUGH if thorough else [MC_QUICK]):
-            r = ctx.tlc_expect_ok("Routing", None, name="mc%d" % k, workers=16,
-                                  timeout=2400 if thorough else 300,
-                                  cfg_text=gen_cfg(tail="INVARIANT TheoremsHold\n", **mc))
+        for k, r in enumerate(r_mc):
+            if not r["ok"]:
+                raise vlib.Infra("TLC did not accept Routing bound %d: invariant=%s error=%s (see %s/tlc.out)" % (
+                    k, r["invariant"], r["error"], r["dir"]))
             ctx.cov["states"] += r["distinct"]
             ctx.cov["transitions"] += r["generated"]
             ctx.cov["model_depth"] = max(ctx.cov["model_depth"], r["depth"])
@@ -191,27 +243,13 @@ def run(ctx, replay):
         ctx.cov["exhaustive_configurations"] = len(set(cfg_key(x) for x in ex_rows))
 
         # ---- as-is: every open deviation must be visible to the model (non-vacuity) ----
-        for dev in open_devs:
-            ra = ctx.tlc("Routing", None, name="asis-" + dev, workers=4, timeout=300,
-                         cfg_text=gen_cfg(tail="INVARIANT %sInvisible\n" % dev, **MC_ASIS))
+        for dev, ra in r_as:
             if ra["invariant"] != dev + "Invisible":
                 raise vlib.Infra("as-is model: deviation %s has no visible effect (%s / %s)" % (
                     dev, ra["invariant"], ra["error"]))
         ctx.cov["asis_counterexamples_found"] = open_devs
 
         # ---- seeded walks over the full grammar and alphabet --------------------
-        n_sim, par = (6000, 12) if thorough else (260, 4)
-
-        def sim(k):
-            c = vlib.Ctx.__new__(vlib.Ctx)       # a view of ctx with its own seed
-            c.__dict__.update(ctx.__dict__)
-            c.seed = ctx.seed * 1000 + k
-            return c.tlc("Routing", None, name="sim%d" % k, workers=1, timeout=1500,
-                         simulate=(n_sim + par - 1) // par, depth=400,
-                         cfg_text=gen_cfg(tail="INVARIANT TheoremsHold\n",
-                                          **dict(SIM, envvars=ALL_VARS if k % 2 == 0 else NO_UPPER_ACE)))
-        with ThreadPoolExecutor(par) as ex:
-            sims = list(ex.map(sim, range(par)))
         sim_rows = []
         for g in sims:
             if not g["ok"]:
@@ -221,8 +259,6 @@ def run(ctx, replay):
         ctx.cov["simulated_configurations"] = len(sim_rows)
         ctx.log("TLC walks: %d configurations (full alphabet, theorems hold)" % len(sim_rows))
 
-        if not thorough:
-            ex_rows = vlib.sample(ctx.rng, ex_rows, 160)
         seen = set()
         for x in ex_rows + sim_rows:
             k = cfg_key(x) + json.dumps(x["envs"], sort_keys=True)
@@ -273,7 +309,7 @@ def run(ctx, replay):
     slim = [{"t": e["t"], "seq": e["seq"], "e": "Row", "in": e["in"], "out": e["out"]} for e in events]
     slim.sort(key=lambda e: e["t"])
     cfg_text = TRACE_CFG % tla_set(open_devs)
-    nb = 1 if len(slim) <= 700 else min(10, (len(slim) + 399) // 400)
+    nb = 1 if len(slim) <= 500 else min(10, (len(slim) + 399) // 400)
     chunks = [slim[k::nb] for k in range(nb)]
 
     def val(k):
@@ -372,8 +408,11 @@ META = {
             "on each: selected block unique, loadable => decision for every envelope, operational rule satisfies the "
             "declarative property. Every row is loaded with the real msgpipeline.New and every envelope of the sweep is "
             "pushed through Start/AddRcpt/Body/Commit; TLC evaluates the C04 clauses on the recorded outcome.",
-    "note": "Exhaustive only inside small bounds (1 source-family + 1 destination-family block per level; one domain in quick, "
-            "three bounds incl. two domains / two spellings / one defect in thorough); "
+    "note": "Exhaustive only inside small bounds (quick: four bounds - precedence with 1 source-family + 1 destination-family "
+            "block per level; incomplete configurations with destination + destination_in and one defect; one rewrite map "
+            "incl. local-part keys / domain-less values over two domains; two nested 1-to-2 rewrites over three addresses; "
+            "thorough: eight bounds incl. two spellings, two domains, defects inside a reroute); all envelopes of a row go "
+            "through the same loaded pipeline in sequence (history independence of the routing is part of the rule); "
             "the full grammar is sampled by seeded TLC simulation (260 configurations quick, 6000 thorough). "
             "Trusted: TLC, harness, Go toolchain.",
     "design_ref": "DESIGN.md section 5 C04",
